@@ -1,4 +1,4 @@
-import Refine.Lemmas.Cavity2Form
+import Refine.Lemmas.Cavity2Collapse
 import Refine.Props.C01
 
 /-!
@@ -447,6 +447,61 @@ theorem swap_accept_conforming (g g' : Grid α) (hg : MeshConf g) (n0 n1 node : 
 
 end swappipe
 
+
+/-- what the collapse statements need of the two vertex balls: distinct ends, at least one tet at `n0`, and
+    adjacency walks that list each cell once -/
+structure BallLists (g : Grid α) (n0 n1 : Int) : Prop where
+  ne : n0 ≠ n1
+  some : g.tets.having Tet.nodes n0 ≠ []
+  t0 : ((g.tets.having Tet.nodes n0).map (·.1)).Nodup
+  t1 : ((g.tets.having Tet.nodes n1).map (·.1)).Nodup
+  s0 : ((g.tris.having Tri.nodes n0).map (·.1)).Nodup
+  s1 : ((g.tris.having Tri.nodes n1).map (·.1)).Nodup
+
+/-- **formEdgeCollapse_ledger** (`ref_cavity_form_edge_collapse`).  On a conforming grid, if the call returns ok with
+    the state still unknown and no tet beyond the balls of the two ends was pulled in by a cancelling seg, the cavity
+    lists the ball of `n0` followed by the rest of the ball of `n1` (tets and boundary tris), its lists are duplicate
+    free and live, and it satisfies the ledger equation: the faces the loops skip (those containing the kept node, all
+    faces of the tets that hold both ends) cancel against each other and against the listed boundary tris. -/
+theorem formEdgeCollapse_ledger {φ : Int → Int → Int → G} (hφ : Alt φ) (hd : Diag φ) (g : Grid α) (hg : MeshConf g)
+    (n0 n1 : Int) (hb : BallLists g n0 n1) (c' : Cav) (h : formEdgeCollapse g Cav.create n0 n1 = (.ok, c'))
+    (hs : c'.state = .unknown)
+    (hextra : c'.tetList =
+      ((ballA g.tets Tet.nodes n0) ++ (ballB g.tets Tet.nodes n0 n1)).map fun p => (p.1 : Int)) :
+    BallFormed φ g n0 n1 c' ∧ CavOK g c' ∧ LedgerEq φ g c' := by
+  have hf := formEdgeCollapse_formed hφ hd g n0 n1 c' h hs hb.some hb.t0 hb.t1 hb.s0 hb.s1 hextra
+  exact ⟨hf, hf.cavInv hb.t0 hb.t1 hb.s0 hb.s1,
+    hf.ledgerEq (ballMatched_of_conforming hφ g n0 n1 hb.ne hg.tetsOrder hg.trisOrder (hg.conf G))⟩
+
+section collapsepipe
+variable [Refine.Scalar α]
+
+/-- **collapse_accept_conforming**: the cavity fall-back of `ref_collapse_to_remove_node1` —
+    `form_edge_collapse → enlarge_visible → (ratio, change) → replace` — on a conforming grid: if the enlarge loop
+    comes back ok + `VISIBLE` and `ref_cavity_replace` accepts, the step is a `CavStep2`, the new grid is conforming
+    again and keeps the grid invariant, whatever cavity the loop ended with.  (`hnd`: the live faces after the form
+    call are non-degenerate — part of `certOk`; the acceptance tests only decide WHETHER replace is called.) -/
+theorem collapse_accept_conforming (g g' : Grid α) (hg : MeshConf g) (n0 n1 : Int) (hb : BallLists g n0 n1)
+    (c1 c2 c3 : Cav) (h : formEdgeCollapse g Cav.create n0 n1 = (.ok, c1)) (hs : c1.state = .unknown)
+    (hextra : c1.tetList =
+      ((ballA g.tets Tet.nodes n0) ++ (ballB g.tets Tet.nodes n0 n1)).map fun p => (p.1 : Int))
+    (hnd : ∀ f ∈ c1.validFaces, Nondeg f)
+    (he : enlargeVisible g c1 = .ret .ok c2) (hvis : c2.state = .visible)
+    (hrep : replace g c2 = (.ok, c3, g')) :
+    CavStep2 g g' ∧ GridOK g' ∧
+    ∀ (H : Type) [AddCommGroup H] (χ : Int → Int → Int → H), Alt χ → Diag χ → meshBd χ g' = 0 := by
+  have hφ0 : Alt (fun _ _ _ => (0 : Int)) := ⟨fun _ _ _ => rfl, fun _ _ _ => by simp⟩
+  have hd0 : Diag (fun _ _ _ => (0 : Int)) := fun _ _ => rfl
+  have hinv := (formEdgeCollapse_ledger hφ0 hd0 g hg n0 n1 hb c1 h hs hextra).2.1
+  have hstep : CavStep2 g g' :=
+    enlargeVisible_step g g' c1 c2 c3 hg.ok hinv hs hnd
+      (fun H _ χ hχ hd => (formEdgeCollapse_ledger hχ hd g hg n0 n1 hb c1 h hs hextra).2.2) he hvis hrep
+  refine ⟨hstep, (replace_mesh_conforming_boundary hφ0 hd0 g g' hg.ok hstep).1, ?_⟩
+  intro H _ χ hχ hd
+  rw [(replace_mesh_conforming_boundary hχ hd g g' hg.ok hstep).2]
+  exact hg.conf H χ hχ
+
+end collapsepipe
 
 /-! ### non-vacuity: an 8-tet star around an interior edge, and a boundary edge with two tris -/
 
